@@ -8,7 +8,7 @@
     (a fact C12's certificate does not state), hence the rebuilt cofactor is the Bezout coefficient of rhs, it is below
     lhs (the debug assertion cannot fire) and the functions meet the contract the modular inverse needs.
     What remains by contract is gcd_ext_in_place (Lehmer) for values of three and more words. *)
-From Dashu Require Import Base.Prelude Base.Words Int.GrlSpec Int.GrlModel Int.GrlGcdProof Int.ModRingSpec.
+From Dashu Require Import Base.Prelude Base.Words Int.GrlSpec Int.GrlModel Int.GrlGcdProof Int.ModRingSpec Int.ModRingPowModel Int.ModRingModel Int.ModRingProofs.
 Open Scope Z_scope.
 
 (** ---------------- the cofactors of C12's euclid_ext: alternating signs, bounded ---------------- *)
@@ -170,7 +170,8 @@ Proof.
     assert (rhs * signed bsg v = r + (- t) * lhs) as Ebz.
     { rewrite Eb. rewrite <- Bz. unfold rem in *. nia. }
     assert (v * r <= lhs) as Hvr.
-    { unfold v. assert (q * Z.abs t * r <= q * rhs) by nia. nia. }
+    { unfold v. assert (q * Z.abs t * r <= q * rhs) by (rewrite <- Z.mul_assoc; apply Z.mul_le_mono_nonneg_l; lia).
+      rewrite Z.mul_add_distr_r. clear - H DM Bs. lia. }
     assert (v < lhs) as Hvl.
     { destruct (Z.eq_dec r 1) as [R1|R1].
       - rewrite R1 in Hvr, Ebz. destruct (Z.eq_dec v lhs) as [Ev|]; [|lia]. exfalso.
@@ -178,7 +179,7 @@ Proof.
         assert ((rhs * signed bsg v) mod lhs = 0) as M0.
         { unfold signed. rewrite Ev. replace (rhs * (sgnz bsg * lhs)) with (rhs * sgnz bsg * lhs) by ring. apply Z.mod_mul. lia. }
         rewrite M0, Z.mod_small in M by lia. lia.
-      - assert (2 <= r) by lia. nia. }
+      - assert (v * 2 <= v * r) by (apply Z.mul_le_mono_nonneg_l; lia). lia. }
     replace (cap <=? v) with false by (symmetry; apply Z.leb_gt; lia).
     exists r, v, bsg. split; [reflexivity|]. split; [exact G'|]. split; [lia|].
     intros R1. rewrite Ebz, R1, Z.mod_add by lia. reflexivity.
@@ -187,14 +188,16 @@ Qed.
 (** ---------------- the dispatch of inv_large with only the Lehmer branch left abstract ---------------- *)
 Section Dispatch.
 Variable w : Z.
+Hypothesis w_ge : 2 <= w.
 Variable lehmer : Z -> Z -> Z * Z * sign.     (* gcd_ext_in_place on a value of three and more words *)
 
-(** raw_len = 1 -> gcd_ext_word, 2 -> gcd_ext_dword, otherwise gcd_ext_in_place; [cap] = B^n *)
-Definition gcd_ext_dispatch (cap lhs rhs : Z) : Z * Z * sign :=
+(** raw_len = 1 -> gcd_ext_word, 2 -> gcd_ext_dword, otherwise gcd_ext_in_place; the buffer that receives |b| is the
+    copy of the modulus: as many words as the modulus has *)
+Definition gcd_ext_dispatch (lhs rhs : Z) : Z * Z * sign :=
   if rhs <? 2 ^ w * 2 ^ w then
-    match gcd_ext_small_asis (small_fuel rhs) cap lhs rhs with
+    match gcd_ext_small_asis (small_fuel rhs) ((2 ^ w) ^ ModRingModel.nwords w lhs) lhs rhs with
     | Ok res => res
-    | _ => (0, 0, Positive)      (* unreachable for 0 < rhs < lhs <= cap (gcd_ext_small_ok) *)
+    | _ => (0, 0, Positive)      (* unreachable for 0 < rhs < lhs (gcd_ext_small_ok) *)
     end
   else lehmer lhs rhs.
 
@@ -202,19 +205,21 @@ Hypothesis lehmer_ok : forall lhs rhs, 2 ^ w * 2 ^ w <= rhs < lhs ->
   let '(g, b, s) := lehmer lhs rhs in
   g = Z.gcd lhs rhs /\ 0 <= b < lhs /\ (g = 1 -> (rhs * signed s b) mod lhs = 1 mod lhs).
 
-Theorem gcd_ext_dispatch_ok cap lhs rhs : 0 < rhs < lhs -> lhs <= cap ->
-  let '(g, b, s) := gcd_ext_dispatch cap lhs rhs in
+Theorem gcd_ext_dispatch_ok lhs rhs : 0 < rhs < lhs ->
+  let '(g, b, s) := gcd_ext_dispatch lhs rhs in
   g = Z.gcd lhs rhs /\ 0 <= b < lhs /\ (g = 1 -> (rhs * signed s b) mod lhs = 1 mod lhs).
 Proof.
-  intros Hr Hcap. unfold gcd_ext_dispatch. destruct (Z.ltb_spec rhs (2 ^ w * 2 ^ w)) as [Hs|Hl].
-  - destruct (gcd_ext_small_ok cap lhs rhs Hr Hcap) as (g & b & sg & -> & H). exact H.
+  intros Hr. unfold gcd_ext_dispatch. destruct (Z.ltb_spec rhs (2 ^ w * 2 ^ w)) as [Hs|Hl].
+  - pose proof (nwords_bound w w_ge lhs ltac:(lia)) as [_ Hcap].
+    destruct (gcd_ext_small_ok ((2 ^ w) ^ ModRingModel.nwords w lhs) lhs rhs Hr ltac:(lia)) as (g & b & sg & -> & H). exact H.
   - apply lehmer_ok. lia.
 Qed.
 End Dispatch.
 
-(** non-vacuity / regression: the two functions on concrete operands (64-bit words) *)
+(** non-vacuity / regression: the two functions on concrete operands (modulus 2^130 + 12; a one-word and a two-word value) *)
 Example gcd_ext_small_examples :
-  gcd_ext_small_asis (small_fuel 7) (2 ^ 192) (2 ^ 130 + 12) 7 = Ok (1, (2 ^ 130 + 12) / 7 * 2 + 1, Negative) /\
-  gcd_ext_small_asis (small_fuel 12) (2 ^ 192) (2 ^ 130 + 12) 12 = Ok (4, 113427455640312821154458202477256070485, Negative) /\
-  gcd_ext_small_asis (small_fuel 4) (2 ^ 192) (2 ^ 130 + 12) 4 = Ok (4, 1, Positive).
+  gcd_ext_small_asis (small_fuel 12) (2 ^ 192) (2 ^ 130 + 12) 12 = Ok (4, 113427455640312821154458202477256070486, Negative) /\
+  gcd_ext_small_asis (small_fuel 4) (2 ^ 192) (2 ^ 130 + 12) 4 = Ok (4, 1, Positive) /\
+  gcd_ext_small_asis 200 (2 ^ 192) (2 ^ 130 + 12) (2 ^ 64 + 3) = Ok (1, 141784319550391026444609981769379217409, Negative) /\
+  ((2 ^ 64 + 3) * signed Negative 141784319550391026444609981769379217409) mod (2 ^ 130 + 12) = 1.
 Proof. vm_compute. repeat split; reflexivity. Qed.
